@@ -221,6 +221,15 @@ def extractNotes (subNotes : Bool) (mainNotes : String) (files : List (String ×
       else acc
     else (acc.1, acc.2 ++ [kv])) ([], [])
 
+/-- by path -/
+def keyLe (a b : String × Str) : Bool := decide (a.1 ≤ b.1)
+
+/-- `renderResources` since the repair `fix: concatenate NOTES.txt files in path order`: the
+rendered files are visited in sorted path order (`sort.Strings` over the keys of the map) -/
+def extractNotesSorted (subNotes : Bool) (mainNotes : String) (files : List (String × Str)) :
+    Str × List (String × Str) :=
+  extractNotes subNotes mainNotes (files.mergeSort keyLe)
+
 /-- `---\n# Source: <name>\n<content>\n` for each sorted manifest. -/
 def assemble (ms : List Manifest) : Str :=
   ms.flatMap fun m => "---\n# Source: ".toList ++ m.name.toList ++ ['\n'] ++ m.content ++ ['\n']
